@@ -37,7 +37,9 @@ MODULES = ['Osmium.Props.C03Text', 'Osmium.Props.C03Layout']
 EXES = ['model_text', 'model_c03']
 RULE = ('text hostile tier: prefixes + byte mutations + element/attribute/field structure mutations of valid XML and OPL files on the real '
         'Reader (ASan+UBSan, NDEBUG and assertions, 10 s watchdog, guarded + library traversal); outcome class vs model_text; '
-        'builder-protocol monitor model_c03 xmlmon vs real crashes; builder scripts: real builders vs HostileLayout.build byte-exact')
+        'builder-protocol monitor model_c03 xmlmon vs real crashes; small-buffer builds (parser buffer 64..200 bytes): objects identical to the '
+        'normal-size run; OPL cursor program (model_c03 oplcur) vs abstract line parser on every line; '
+        'builder scripts: real builders vs HostileLayout.build byte-exact')
 
 # ======================================================================================================
 # XML
@@ -610,6 +612,7 @@ def run_part(ctx):
         return text_model_classes(ctx, 'xml', datas, [xml_in_model_domain(labels[d], d) for d in datas])
 
     xin, xouts = hp.hostile_run(ctx, 'xml', 'xml', builds, inputs, xml_model, types=23, probes=probes, comp_sample=40 if quick else 300)
+    hp.smallbuf_run(ctx, 'xml', 'xml', xin, xouts, 23, select=hp.structure_label, share=2 if quick else None)
     # builder-protocol monitor of the model vs what really happened, both builds
     hp.tick(ctx, 'xml:xmlmon')
     mon = xmlmon(ctx, [d for _, d in xin])
@@ -658,7 +661,35 @@ def run_part(ctx):
     def opl_model(datas):
         return text_model_classes(ctx, 'opl', datas, [len(d) < 200000 for d in datas])
 
-    hp.hostile_run(ctx, 'opl', 'opl', builds, inputs, opl_model, types=23, probes=probes, comp_sample=40 if quick else 300)
+    oin, oouts = hp.hostile_run(ctx, 'opl', 'opl', builds, inputs, opl_model, types=23, probes=probes, comp_sample=40 if quick else 300)
+    hp.smallbuf_run(ctx, 'opl', 'opl', oin, oouts, 23, select=hp.structure_label, share=2 if quick else None)
+
+    # ---- OPL: the cursor program of Model/HostileOpl.lean (subject of `opl_reads_in_bounds`) against the abstract
+    # line parser Model/OplFmt.lean (the one compared with the real Reader above), on every line of every input
+    hp.tick(ctx, 'opl:cursor-program')
+    seen = set()
+    olines = []
+    for _, d in oin:
+        for seg in re.split(b'[\n\r]', d):
+            seg = seg.split(b'\x00', 1)[0]
+            if seg and len(seg) <= (4096 if quick else 70000) and seg not in seen:
+                seen.add(seg)
+                olines.append(seg)
+    couts = run_model_lines(ctx, 'model_c03', ['oplcur %s' % (l.hex() or '-') for l in olines])
+    ndiff = 0
+    first = None
+    for l, o in zip(olines, couts):
+        ctx.note_case('oplcur ' + l.hex())
+        ctx.count('oplcur:' + o.split(' ')[0])
+        if o != 'same':
+            ndiff += 1
+            if first is None:
+                first = (l, o)
+    ctx.streams['opl-cursor-program-vs-line-parser-model'] = {'lines': len(olines), 'disagreements': ndiff}
+    if first is not None:
+        ctx.violation('opl-cursor-program-correspondence', 'the OPL cursor program (Model/HostileOpl.lean, parseLineCur) and the abstract line parser '
+                      '(Model/OplFmt.lean, parseLine) disagree on %d of %d lines; first: `%s` -> %s' % (ndiff, len(olines), first[0][:200].decode('latin-1'), first[1]),
+                      {'kind': 'broken-correspondence', 'op': 'oplcur ' + first[0].hex(), 'model': first[1]}, found_input=False)
 
     # ---- layout tie -----------------------------------------------------------------------------------
     hp.tick(ctx, 'layout:tie')
